@@ -70,6 +70,8 @@ def r2n_cases(draw, tier):
 
 @st.composite
 def d2r_cases(draw, tier):
+    if draw(st.integers(0, 3)) == 0:
+        return {"dfa": draw(G.dfa_specs(max_states=3, sigma=["a", "b", "c"]))}      # three symbols: parallel edges with a different edge in between
     return {"dfa": draw(G.dfa_specs(max_states=4 if tier == "quick" else 5, max_sigma=2))}
 
 
